@@ -19,12 +19,16 @@ CLAIMED = {
   text="Every range over a map in the non-test gomacro packages of a scratch copy is rewritten to iterate in an order the simulator chooses. Per program (repo fixtures, corpus, synthesised multi-package modules) the canonical-order outputs of all seven targets are compared byte for byte with the outputs under seeded schedules that reverse, rotate or shuffle a random subset of sites; failures are minimised to the culpable range statement and replay exactly. A second tier runs the pristine code in fresh processes at GOMAXPROCS 1/4/16 and the real CLI, comparing hashes (probabilistic cross-check of what the seam cannot own: real map seeds, loader goroutines). Sampling over programs and schedules, not proof.",
   note="Trusted: the instrumenter's rewrite (snapshot of the map, canonical sort by key rendering, then permutation) is a legal iteration order of the original loop as long as the loop body does not insert into or delete from the ranged map (sites that do are listed in the evidence). Pointer-value dependence is only visible through the fresh-process tier.",
   ref="3 (C07)"),
+ "C17": dict(
+  technique="deterministic simulation of the loader's environment: seeded file-system layouts, working directories and argument spellings with injected environment faults, real LoadSources + go list against it",
+  text="Each seeded run builds a module tree on a scratch file system (package directories from prefix-colliding families, nesting, outer directories with spaces/dots), picks a working directory and a spelling for every argument, optionally injects one environment fault (missing file, non-Go file, type error in the root or an imported package, directory in place of a file, dangling symlink, empty .go file, go tool unavailable), and calls the real analysis.LoadSources. Oracle: fault-free -> no error, i-th package contains the i-th file and has the expected import path, root is an existing directory and a component-wise ancestor of every file; with a fault -> an error, never a panic. Sampling of layouts, not proof.",
+  note="Trusted: the generator's own model of which import path a directory has (module path + relative dir). The layout dimension is generated input; the claim rests on the interaction of real os/filepath/go list with the path algorithm, which only a real tree can judge.",
+  ref="3 (C17)"),
 }
 
 BUILDING = {
  "C05": "check under construction in this session (simulated PostgreSQL); will be claimed once it runs - see DESIGN.md section 3",
  "C15": "check under construction in this session (seeded math/rand harness); will be claimed once it runs - see DESIGN.md section 3",
- "C17": "check under construction in this session (file-system environment + faults); will be claimed once it runs - see DESIGN.md section 3",
 }
 
 NA = {
